@@ -3,6 +3,7 @@ from __future__ import annotations
 import ast
 import copy
 import inspect
+import keyword
 import logging
 from dataclasses import dataclass, is_dataclass, make_dataclass
 from typing import (
@@ -887,14 +888,16 @@ def remap_by_types(
                         "valid."
                     )
                 index = _slice.value
-                if len(t_node.value.elts) <= index:
+                if not isinstance(index, int):
+                    raise ValueError(f"Tuple index must be an integer - {ast.dump(_slice)} is not")
+                if not -len(t_node.value.elts) <= index < len(t_node.value.elts):
                     raise ValueError(f"Index {index} out of range for {ast.dump(node.value)}")
                 self._found_types[node] = self.lookup_type(t_node.value.elts[index])
                 self._found_types[t_node] = self.lookup_type(t_node.value.elts[index])
             elif ((dc := self.lookup_type(t_node.value)) is not None) and is_dataclass(dc):
                 dc_types = get_type_hints(dc)
                 _slice = ast.literal_eval(t_node.slice)
-                if _slice not in dc_types:
+                if not isinstance(_slice, str) or _slice not in dc_types:
                     raise ValueError(
                         f"Key {ast.unparse(t_node.slice)} not found in dataclass/dictionary {dc}"
                     )
@@ -924,9 +927,12 @@ def remap_by_types(
                 (ast.literal_eval(f), self.lookup_type(v))  # type: ignore
                 for f, v in zip(t_node.keys, t_node.values)
             ]
-            dict_dataclass = make_dataclass("dict_dataclass", fields)
-
-            self._found_types[t_node] = dict_dataclass
+            # Only keys that can be field names give a record type (any string is a legal key)
+            names = [f for f, _ in fields]
+            if all(
+                isinstance(f, str) and f.isidentifier() and not keyword.iskeyword(f) for f in names
+            ) and len(set(names)) == len(names):
+                self._found_types[t_node] = make_dataclass("dict_dataclass", fields)
             return t_node
 
         def visit_Constant(self, node: ast.Constant) -> Any:
